@@ -19,7 +19,7 @@ use serde_json::json;
 pub const SPEC15: PropSpec = PropSpec {
 	id: "C15",
 	level: "fault_enumeration",
-	rule: "case = history of up to 40 writer calls over {serialize ok, serialize failing inside the value at a random depth (after bytes were emitted), serialize_all with a failing element in the middle, push_serialized, finish_block, inner()/inner_mut() inspection} ending with into_inner or drop, x approx_block_size in {0,1,small,default,large} x 6 codecs; the sink is a shared buffer (in half of the histories one that accepts only 1..40 bytes per write call, with or without its own write_vectored) inspected after EVERY call (= every point at which the process could stop): it must parse as a complete container file under the reference parser and decode to a prefix (in order) of the successfully serialized values; after finish_block / into_inner / drop to exactly all of them; failed values contribute nothing; conservation invariant through hook H4: ok_values == values_in_sink + n_elements_in_block. One fifth of the cases instead run serialize / finish_block histories on a sink that refuses 1-3 write calls outright (hard error, nothing accepted; each flush is one call there) and works again afterwards: the sink must stay a valid file and, once a later call has flushed successfully, hold every value whose call returned Ok exactly once and in order (a value whose own call returned the sink's error may be kept or not). distinct by hash(schema shape, history kinds, final file)",
+	rule: "case = history of up to 40 writer calls over {serialize ok, serialize failing inside the value at a random depth (after bytes were emitted; record fields are presented in schema, reversed or shuffled order, so failures also happen while earlier fields sit in reordering buffers), serialize_all with a failing element in the middle, push_serialized, finish_block, inner()/inner_mut() inspection} ending with into_inner or drop, x approx_block_size in {0,1,small,default,large} x 6 codecs; the sink is a shared buffer (in half of the histories one that accepts only 1..40 bytes per write call, with or without its own write_vectored) inspected after EVERY call (= every point at which the process could stop): it must parse as a complete container file under the reference parser and decode to a prefix (in order) of the successfully serialized values; after finish_block / into_inner / drop to exactly all of them; failed values contribute nothing; conservation invariant through hook H4: ok_values == values_in_sink + n_elements_in_block. One fifth of the cases instead run serialize / finish_block histories on a sink that refuses 1-3 write calls outright (hard error, nothing accepted; each flush is one call there) and works again afterwards: the sink must stay a valid file and, once a later call has flushed successfully, hold every value whose call returned Ok exactly once and in order (a value whose own call returned the sink's error may be kept or not). distinct by hash(schema shape, history kinds, final file)",
 	assumptions: &["the sync marker is fixed; which block boundaries the writer chooses is free"],
 	cases: (50_000_000, 4_000_000_000),
 	secs: (30, 900),
@@ -172,7 +172,9 @@ fn refusal_case(ctx: &mut Ctx, case_seed: u64, rng: &mut Rng, rs: &RSchema, sche
 	let sink = SharedSink::refusing(refuse_at.clone());
 	let refusals = sink.refusals.clone();
 	let mut scfg = SerializerConfig::new(schema);
-	let pres = Pres::canonical();
+	// record fields in schema, reversed or shuffled order, as struct or map: values go through the serializer's
+	// reordering buffers too (also the ones that fail half-way)
+	let pres = Pres::canonical_reordered(rng);
 	let mut w = match build_writer(&mut scfg, &wc, sink.clone()) {
 		Ok(w) => w,
 		Err(_) => return,
@@ -297,7 +299,9 @@ pub fn run_case15(ctx: &mut Ctx, case_seed: u64) {
 		SharedSink::scheduled(sched, rng.coin())
 	};
 	let mut scfg = SerializerConfig::new(&schema);
-	let pres = Pres::canonical();
+	// record fields in schema, reversed or shuffled order, as struct or map: values go through the serializer's
+	// reordering buffers too (also the ones that fail half-way)
+	let pres = Pres::canonical_reordered(&mut rng);
 	let mut hist: Vec<String> = Vec::new();
 	let mut ok_vals: Vec<Val> = Vec::new();
 	let nops = 1 + rng.below(40);
@@ -507,6 +511,8 @@ fn drive<W: std::io::Write>(
 				.serialize_all(vals[*i..*j].iter().map(|v| Present::new(rs, v, &pres)))
 				.map_err(|e| format!("serialize_all: {e}")),
 			Op::FinishBlock => w.finish_block().map_err(|e| format!("finish_block: {e}")),
+			// (C16 compares byte streams of successful histories: the failing-value op belongs to C05 / C06 / C15)
+			Op::SerializeUnpresentable(_) => Ok(()),
 			Op::Push(i, j) => {
 				let mut c2 = SerializerConfig::new(schema);
 				let mut buf = Vec::new();
